@@ -562,3 +562,153 @@ class FilesetFamily(Family):
         return sum(1 for l in lines if l.startswith("fs.set")) >= 2 and sum(1 for l in lines if l.startswith(("fs.now", "fs.reload"))) >= 1 and any(l.startswith("fs.dup") for l in lines)
 
 FAMILIES["fileset"] = FilesetFamily
+
+
+class EncFamily(Family):
+    name = "enc"
+    def cases(self, pid, seed, tier, mult, stats):
+        for c in self.corpus(pid):
+            yield c
+        self.stats = stats
+        for i in range(budget(tier, 200, 3000, mult)):
+            yield ("enc:%d:%d" % (seed, i), ["#gen-enc %d %d" % (seed, i)])
+    def run(self, exe, lines):
+        if not lines or not lines[0].startswith("#gen-enc"):
+            res = vlib.run_script(exe, lines)
+            self.last_ents = self._ents_from(res)
+            return res
+        _, seed, i = lines[0].split(" ")
+        rng = Rng(int(seed) * 5000011 + int(i) * 23)
+        st = getattr(self, "stats", F.Stats())
+        spec, ents, comp, thr = F.gen_efile_spec(rng, st)
+        ctab = []
+        if comp != 0:
+            r1 = vlib.run_script(exe, ["@r enc.raw " + spec])
+            raws = r1[0]["model"].split(" ")[1:] if r1 and r1[0]["model"].startswith("raws") else []
+            level = rng.pick(F.LEVELS[comp])
+            r2 = vlib.run_script(exe, ["cz.raw %d %s %s" % (comp, level, raw) for raw in raws]) if raws else []
+            for raw, rr in zip(raws, r2):
+                if rr["real"].startswith("stored "):
+                    ctab.append("ctab %d %s %s" % (comp, raw, rr["real"].split(" ")[1]))
+        script = F.gen_enc_script(rng, st, spec, ents, comp, thr, ctab)
+        self.last_script = script
+        self.last_ents = ents
+        return vlib.run_script(exe, script)
+    def _ents_from(self, res):
+        # replay: recover the encoded entries from the spec in the script
+        for r in res:
+            if r["req"].startswith("enc.file"):
+                kv = dict(a.split("=", 1) for a in r["req"].split(" ")[2:] if "=" in a)
+                ents = []
+                for b in (kv.get("blocks", "") or "").split(";"):
+                    for it in b.split("|")[1:]:
+                        sh, k, v = it.split(",")
+                        ents.append((unhx(k), unhx(v)))
+                return ents
+        return []
+    def oracle(self, res):
+        return [f for f in F.oracle_enc(res, getattr(self, "last_ents", [])) if f[0] != "gen"]
+    def tie_props(self, res, idx):
+        return {"C11"}
+    def nontrivial(self, pid, lines, res):
+        return any(r["req"].startswith("r.openb") and r["real"].startswith("ok ") and int(r["real"].split(" ")[6]) >= 2 for r in res)
+
+FAMILIES["enc"] = EncFamily
+
+
+class WaFamily(Family):
+    """C20: the writer under scripted write(2) outcomes (short writes, EINTR, zero, hard errors)"""
+    name = "wa"
+    def cases(self, pid, seed, tier, mult, stats):
+        for c in self.corpus(pid):
+            yield c
+        rng = Rng(seed * 6000011 + 1)
+        for i in range(budget(tier, 40, 600, mult)):
+            st = F.Stats()
+            keys = F.gen_keys(rng, rng.pick([0, 1, 2, 4, 7]), st, long_ok=False)
+            ents = " ".join("%s %s" % (hx(k), hx(F.gen_val(rng, st, 40)[:60])) for k in keys)
+            cfgs = "bs=%d ri=%d minbs=16" % (rng.pick([16, 32, 64, 200]), rng.pick([1, 2, 3]))
+            lines = ["wa.file %s script=- %s" % (cfgs, ents)]
+            # number of _write_all calls of the fault-free run: 3 per block + 3 (index) + 1 (trailer) — unknown here, so
+            # enumerate single faults at the first 3*len+8 call positions (later positions are simply never reached)
+            ncalls = 3 * len(keys) + 8
+            if i % 3 == 0:
+                for pos in range(ncalls):          # exhaustive single faults at every call
+                    for o in ("e", "p1", "p3", "z", "x"):
+                        lines.append("wa.file %s script=%s %s" % (cfgs, ",".join(["f"] * pos + [o]), ents))
+                        stats.bump("wa_single_" + o[0])
+            for _ in range(12):                    # random multi-fault scripts
+                sc = [rng.pick(["f", "f", "e", "e", "p1", "p2", "p5", "p500", "e", "f", "z" if rng.chance(1, 8) else "f", "x" if rng.chance(1, 8) else "e"]) for _ in range(rng.pick([3, 8, 20, 60]))]
+                lines.append("wa.file %s script=%s %s" % (cfgs, ",".join(sc), ents)); stats.bump("wa_random")
+            yield ("wa:%d:%d" % (seed, i), lines)
+    def oracle(self, res):
+        fails = []
+        base = None
+        for i, r in enumerate(res):
+            t = r["req"].split(" ")
+            kvs = dict(a.split("=", 1) for a in t[1:] if "=" in a)
+            key = " ".join(a for a in t[1:] if not a.startswith("script="))
+            real = r["real"]
+            if real.startswith(("asan", "died")):
+                fails.append(("C20", "writer under a write(2) script died: " + real[:80], i)); continue
+            sc = [] if kvs.get("script", "-") == "-" else kvs["script"].split(",")
+            if not sc:
+                base = (key, real)
+                if not real.startswith("ok "):
+                    fails.append(("C20", "fault-free write did not succeed: " + real[:60], i))
+                continue
+            if base is None or base[0] != key:
+                continue
+            want_file = base[1].split(" ")[1]
+            calls = real.split("calls=")[1].split(",") if "calls=" in real and real.split("calls=")[1] else []
+            consumed = sc[:len(calls)]
+            hard = any(o in ("z", "x") or o == "p0" for o in consumed)
+            if real.startswith("ok "):
+                if hard:
+                    fails.append(("C20", "a hard write error (script %s) was reported as success" % kvs["script"][:60], i))
+                if real.split(" ")[1] != want_file:
+                    fails.append(("C20", "file differs from the all-full-writes file under script %s" % kvs["script"][:60], i))
+            elif real.startswith("abort "):
+                if not hard:
+                    fails.append(("C20", "the process stopped although every outcome in the script was benign (%s)" % kvs["script"][:60], i))
+                got = real.split(" ")[1][5:]
+                if not want_file[5:].startswith(got if got != "-" else ""):
+                    fails.append(("C20", "bytes that reached the descriptor before the stop are not a prefix of the fault-free file", i))
+        return fails
+    def tie_props(self, res, idx):
+        return {"C20"}
+    def nontrivial(self, pid, lines, res):
+        return any(r["real"].startswith("abort") for r in res) and sum(1 for r in res if r["real"].startswith("ok ")) >= 3
+
+FAMILIES["wa"] = WaFamily
+
+# ---------------------------------------------------------------------------------------------
+REG = json.load(open(os.path.join(vlib.LEAN, "registry.json")))
+
+def reg(pid, families, rule, assumptions=(), generated=(), trusted=(), **kw):
+    d = {"module": REG[pid]["module"], "theorems": REG[pid]["theorems"], "families": families, "rule": rule,
+         "assumptions": list(assumptions), "generated": list(generated), "trusted": list(trusted)}
+    d.update(kw)
+    PROPS[pid] = d
+
+TABLE_RULE = ("tables from prefix-tree key generators over the alphabet {00,01,7f,80,fe,ff,'a','b'} + random bytes (empty key with probability 1/2, "
+              "keys/values straddling 127/128 and 16383/16384, values larger than a block), 6 compression types x default/clamped/in-range levels, "
+              "block sizes 16..5000 through the run-time minimum (every tenth case at the real minimum), restart intervals 1..20, foreign prefixes 0..700 bytes, "
+              "verify_checksums and madvise on/off; full iteration, get/prefix/range lookups on structured queries, seek/next histories on all four iterator kinds; "
+              "file bytes compared exactly with the model (compressed payloads through the library's own output as oracle table); non-trivial = >= 2 data blocks and >= 3 accepted entries")
+LEN32 = "entries shorter than 4 GiB (finding F11: longer ones are silently truncated by the 32-bit entry header)"
+CODEC = "compression libraries: decompress(compress(x)) = x and compress does not fail (contract; the part of C15 consumed here)"
+
+reg("C01", ["table"], TABLE_RULE, [LEN32, CODEC, "restart interval >= 1", "pooled writer = sequential writer (C13)"], generated=["Constants"])
+reg("C02", ["table"], TABLE_RULE, [LEN32, CODEC])
+reg("C03", ["table"], TABLE_RULE, [LEN32, CODEC, "buffer lifetime (returned key/value stay intact until the next call on that iterator) is a run-time check under ASan, not a theorem"])
+reg("C09", ["table"], TABLE_RULE + "; every emitted file is byte-identical to the independent encoder's output on the canonical choices (W_refines_format) and re-validated structurally by python (frames contiguous to the index offset, prefix untouched)", [LEN32, CODEC], generated=["Constants"])
+reg("C10", ["table"], TABLE_RULE + "; the nine trailer fields from mtbl_metadata_* accessors recounted from the accepted entries and from the frame layout", [LEN32, "counters below 2^64"], generated=["Constants"])
+reg("C11", ["enc"], "files produced by the Lean independent encoder from random LEGAL choices (v1 and v2, restart at every entry / one per block / random / writer-like, sharing anywhere in 0..lcp, separators anywhere in the legal interval, random block splits, foreign prefixes, all six codecs with payloads compressed by the real library, 32- and 64-bit restart arrays via a lowered threshold compiled into block.c/block_builder.c at run time) read by the real reader: iteration, lookups, seek histories; non-trivial = >= 2 data blocks",
+    [LEN32, CODEC, "non-canonical varints are excluded (as in the property)", "the >4 GiB restart-array branch is exercised at a lowered threshold; the theorems are parametric in the threshold"])
+reg("C04", ["merger"], "0..6 sources (real tables with tiny blocks, empty tables, a user-defined source that poisons its previous buffers on every call), overlapping/disjoint/identical key sets incl. the empty key, merge = multiset union of unique 2-byte tokens (so 'each value exactly once' is checkable and fold order cannot differ), no merge function, dupsort, a merge callback failing on a chosen key; non-trivial = >= 2 non-empty sources",
+    ["sources sorted; dupsort a total preorder", "after a reported callback failure the iterator state is unspecified and no longer compared"])
+reg("C06", ["sorter"], "input sequences (random, sorted, reversed, all-equal, distinct; empty key; empty input) x memory limits from one entry per chunk to everything in memory (run-time minimum lowered) x pool none/0/1/2/4/8; iterator output, mtbl_sorter_write output, refusals after iteration began, spill count against the byte rule, mkstemp templates and leftover files; non-trivial = >= 2 spills",
+    ["qsort returns a key-sorted permutation", "the chunk round trip through a temporary snappy table is the identity (C01)", "mkstemp/unlink/mmap-after-unlink semantics (OS contract)", "pooled chunk writers deliver the same chunks in some order (C13)"])
+reg("C20", ["wa"], "a writer (compression none, 0..7 entries, tiny blocks) under scripted write(2) outcomes: exhaustive single faults (EINTR, short 1, short 3, zero, EIO) at every call position, random multi-fault scripts up to 60 outcomes; child process per run; final bytes, per-call sizes and termination compared with the model; non-trivial = the case contains both completed and stopped runs",
+    ["asserts are enabled (the repository's flags never define NDEBUG)", "write(2) returns at most the requested size"])
